@@ -2048,6 +2048,28 @@ enum Op {
     EmbedDelete(String),
     SimilarKey { key: String, k: u64, metric: Option<u8> },
     SimilarVec { vec: Vec<Lit>, k: u64, metric: Option<u8> },
+    // families whose grammar has a LIMIT / OFFSET window
+    NodeList { label: Option<String>, limit: Option<u64>, offset: Option<u64> },
+    EdgeList { ty: Option<String>, limit: Option<u64>, offset: Option<u64> },
+    FindNode { label: Option<String>, cond: Option<(String, B, i64)>, limit: Option<u64> },
+    FindEdge { ty: Option<String>, limit: Option<u64> },
+    ShowEmbeddings { limit: Option<u64> },
+    CountEmbeddings,
+    EntityCreate { key: String, props: Vec<(String, String)>, emb: Option<Vec<Lit>> },
+    EntityConnect { from: String, to: String, ty: String },
+    NeighborsBySimilar { key: String, vec: Vec<Lit>, limit: Option<u64> },
+    SimilarConnected { key: String, to: String, limit: Option<u64> },
+}
+
+fn window_text(limit: &Option<u64>, offset: &Option<u64>, st: &Style) -> String {
+    let mut s = String::new();
+    if let Some(n) = limit {
+        s.push_str(&format!(" {} {}", st.kw("LIMIT"), n));
+    }
+    if let Some(n) = offset {
+        s.push_str(&format!(" {} {}", st.kw("OFFSET"), n));
+    }
+    s
 }
 
 fn props_text(props: &[(String, Lit)], st: &Style) -> String {
@@ -2104,6 +2126,16 @@ impl Op {
             Op::EmbedDelete(_) => "embed-delete",
             Op::SimilarKey { .. } => "similar-key",
             Op::SimilarVec { .. } => "similar-vector",
+            Op::NodeList { .. } => "node-list",
+            Op::EdgeList { .. } => "edge-list",
+            Op::FindNode { .. } => "find-node",
+            Op::FindEdge { .. } => "find-edge",
+            Op::ShowEmbeddings { .. } => "show-embeddings",
+            Op::CountEmbeddings => "count-embeddings",
+            Op::EntityCreate { .. } => "entity-create",
+            Op::EntityConnect { .. } => "entity-connect",
+            Op::NeighborsBySimilar { .. } => "neighbors-by-similar",
+            Op::SimilarConnected { .. } => "similar-connected",
         }
     }
 
@@ -2118,6 +2150,9 @@ impl Op {
             Op::EdgeCreate { props, .. } if props.iter().any(|(_, l)| l.is_neg()) => Some("edge-property"),
             Op::EmbedStore { vec, .. } if vec.iter().any(|l| l.is_neg()) => Some("embed-vector"),
             Op::SimilarVec { vec, .. } if vec.iter().any(|l| l.is_neg()) => Some("similar-vector"),
+            Op::FindNode { cond: Some((_, _, v)), .. } if *v < 0 => Some("find-where"),
+            Op::EntityCreate { emb: Some(vec), .. } if vec.iter().any(|l| l.is_neg()) => Some("entity-embedding"),
+            Op::NeighborsBySimilar { vec, .. } if vec.iter().any(|l| l.is_neg()) => Some("neighbors-similar-vector"),
             _ => None,
         }
     }
@@ -2184,6 +2219,33 @@ impl Op {
             Op::EmbedDelete(key) => format!("{} {} {}", k("EMBED"), k("DELETE"), quote_str(key, st.dq_strings)),
             Op::SimilarKey { key, k: n, metric } => format!("{} {} {} {}{}", k("SIMILAR"), quote_str(key, st.dq_strings), k("LIMIT"), n, metric_text(*metric, st)),
             Op::SimilarVec { vec, k: n, metric } => format!("{} {} {} {}{}", k("SIMILAR"), vec_text(vec, st), k("LIMIT"), n, metric_text(*metric, st)),
+            Op::NodeList { label, limit, offset } => format!("{} {}{}{}", k("NODE"), k("LIST"), label.as_ref().map(|l| format!(" {}", l)).unwrap_or_default(), window_text(limit, offset, st)),
+            Op::EdgeList { ty, limit, offset } => format!("{} {}{}{}", k("EDGE"), k("LIST"), ty.as_ref().map(|l| format!(" {}", l)).unwrap_or_default(), window_text(limit, offset, st)),
+            Op::FindNode { label, cond, limit } => format!(
+                "{} {}{}{}{}",
+                k("FIND"),
+                k("NODE"),
+                label.as_ref().map(|l| format!(" {}", l)).unwrap_or_default(),
+                cond.as_ref().map(|(c, op, v)| format!(" {} {} {} {}", k("WHERE"), c, bin_text(*op, st), v)).unwrap_or_default(),
+                window_text(limit, &None, st)
+            ),
+            Op::FindEdge { ty, limit } => format!("{} {}{}{}", k("FIND"), k("EDGE"), ty.as_ref().map(|l| format!(" {}", l)).unwrap_or_default(), window_text(limit, &None, st)),
+            Op::ShowEmbeddings { limit } => format!("{} {}{}", k("SHOW"), k("EMBEDDINGS"), window_text(limit, &None, st)),
+            Op::CountEmbeddings => format!("{} {}", k("COUNT"), k("EMBEDDINGS")),
+            Op::EntityCreate { key, props, emb } => {
+                let ps: Vec<String> = props.iter().map(|(pk, pv)| format!("{}: {}", pk, quote_str(pv, st.dq_strings))).collect();
+                format!(
+                    "{} {} {} {{{}}}{}",
+                    k("ENTITY"),
+                    k("CREATE"),
+                    quote_str(key, st.dq_strings),
+                    ps.join(", "),
+                    emb.as_ref().map(|v| format!(" {} {}", k("EMBEDDING"), vec_text(v, st))).unwrap_or_default()
+                )
+            }
+            Op::EntityConnect { from, to, ty } => format!("{} {} {} -> {} : {}", k("ENTITY"), k("CONNECT"), quote_str(from, st.dq_strings), quote_str(to, st.dq_strings), ty),
+            Op::NeighborsBySimilar { key, vec, limit } => format!("{} {} {} {} {} {}{}", k("NEIGHBORS"), quote_str(key, st.dq_strings), k("BOTH"), k("BY"), k("SIMILAR"), vec_text(vec, st), window_text(limit, &None, st)),
+            Op::SimilarConnected { key, to, limit } => format!("{} {} {} {} {}{}", k("SIMILAR"), quote_str(key, st.dq_strings), k("CONNECTED"), k("TO"), quote_str(to, st.dq_strings), window_text(limit, &None, st)),
         }
     }
 }
@@ -2201,6 +2263,13 @@ enum Direct {
     Path(Vec<u64>),
     Vector(Vec<f32>),
     Similar(Vec<(String, f32)>, Vec<(String, f32)>),
+    /// complete listing (id, label/type) and the requested window
+    Listing { all: Vec<(u64, String)>, limit: Option<u64>, offset: Option<u64> },
+    /// FIND: candidates (right label), ids that must / must not be returned, whether nothing is left open
+    Find { cands: Vec<u64>, must: Vec<u64>, must_not: Vec<u64>, exact: bool, limit: Option<u64> },
+    Keys(Vec<String>, Option<u64>),
+    /// the call succeeded; `Some(s)`: the text result has to mention s
+    Done(Option<String>),
 }
 
 fn es<E: std::fmt::Display>(e: E) -> String {
@@ -2208,8 +2277,88 @@ fn es<E: std::fmt::Display>(e: E) -> String {
 }
 
 /// the equivalent direct engine call(s) of an operation
-fn direct(op: &Op, rel: &RelationalEngine, g: &GraphEngine, v: &VectorEngine) -> Result<Direct, String> {
+fn direct(op: &Op, router: &QueryRouter) -> Result<Direct, String> {
+    let (rel, g, v): (&RelationalEngine, &GraphEngine, &VectorEngine) = (router.relational(), router.graph(), router.vector());
     match op {
+        Op::NodeList { label, limit, offset } => {
+            let nodes = match label {
+                Some(l) => g.find_nodes_by_label(l).map_err(es)?,
+                None => g.all_nodes(),
+            };
+            Ok(Direct::Listing { all: nodes.into_iter().map(|n| (n.id, n.labels.join(":"))).collect(), limit: *limit, offset: *offset })
+        }
+        Op::EdgeList { ty, limit, offset } => {
+            let edges = match ty {
+                Some(t) => g.find_edges_by_type(t).map_err(es)?,
+                None => g.all_edges(),
+            };
+            Ok(Direct::Listing { all: edges.into_iter().map(|e| (e.id, e.edge_type)).collect(), limit: *limit, offset: *offset })
+        }
+        Op::FindNode { label, cond, limit } => {
+            let nodes = match label {
+                Some(l) => g.find_nodes_by_label(l).map_err(es)?,
+                None => g.all_nodes(),
+            };
+            let cands: Vec<u64> = nodes.iter().map(|n| n.id).collect();
+            let (mut must, mut must_not, mut exact) = (Vec::new(), Vec::new(), true);
+            for n in &nodes {
+                match cond {
+                    None => must.push(n.id),
+                    Some((c, op, val)) => match n.properties.get(c) {
+                        // only an integer property compared with an integer literal has an undisputed answer
+                        Some(PropertyValue::Int(x)) => {
+                            let t = match op {
+                                B::Eq => x == val,
+                                B::Ne => x != val,
+                                B::Lt => x < val,
+                                B::Le => x <= val,
+                                B::Gt => x > val,
+                                _ => x >= val,
+                            };
+                            if t {
+                                must.push(n.id)
+                            } else {
+                                must_not.push(n.id)
+                            }
+                        }
+                        _ => exact = false,
+                    },
+                }
+            }
+            Ok(Direct::Find { cands, must, must_not, exact, limit: *limit })
+        }
+        Op::FindEdge { ty, limit } => {
+            let edges = match ty {
+                Some(t) => g.find_edges_by_type(t).map_err(es)?,
+                None => g.all_edges(),
+            };
+            let ids: Vec<u64> = edges.iter().map(|e| e.id).collect();
+            Ok(Direct::Find { cands: ids.clone(), must: ids, must_not: vec![], exact: true, limit: *limit })
+        }
+        Op::ShowEmbeddings { limit } => Ok(Direct::Keys(v.list_keys(), *limit)),
+        Op::CountEmbeddings => Ok(Direct::Count(v.list_keys().len())),
+        Op::EntityCreate { key, props, emb } => {
+            let fields: HashMap<String, String> = props.iter().cloned().collect();
+            router.create_unified_entity(key, fields, emb.as_ref().map(|e| e.iter().map(lit_f32).collect())).map_err(es)?;
+            Ok(Direct::Done(None))
+        }
+        Op::EntityConnect { from, to, ty } => router.connect_entities(from, to, ty).map(|s| Direct::Done(Some(s))).map_err(es),
+        Op::NeighborsBySimilar { key, vec, limit } => {
+            let q: Vec<f32> = vec.iter().map(lit_f32).collect();
+            // the grammar's LIMIT is optional; the book does not name a default, the router uses 10
+            let k = limit.unwrap_or(10) as usize;
+            let top = router.find_neighbors_by_similarity(key, &q, k).map_err(es)?;
+            let full = router.find_neighbors_by_similarity(key, &q, 100_000).map_err(es)?;
+            let cv = |v: Vec<_>| v.into_iter().map(|i: query_router::UnifiedItem| (i.id, i.score.unwrap_or(0.0))).collect::<Vec<(String, f32)>>();
+            Ok(Direct::Similar(cv(top), cv(full)))
+        }
+        Op::SimilarConnected { key, to, limit } => {
+            let k = limit.unwrap_or(10) as usize;
+            let top = router.find_similar_connected(key, to, k).map_err(es)?;
+            let full = router.find_similar_connected(key, to, 100_000).map_err(es)?;
+            let cv = |v: Vec<_>| v.into_iter().map(|i: query_router::UnifiedItem| (i.id, i.score.unwrap_or(0.0))).collect::<Vec<(String, f32)>>();
+            Ok(Direct::Similar(cv(top), cv(full)))
+        }
         Op::CreateTable { name, cols } => {
             let cs: Vec<Column> = cols
                 .iter()
@@ -2451,8 +2600,72 @@ fn results_agree(a: &QueryResult, b: &Direct, rep: &mut Report) -> Result<(), St
                 bad("similarity results differ")
             }
         }
+        (QueryResult::Nodes(x), Direct::Listing { all, limit, offset }) => {
+            let got: Vec<(u64, String)> = x.iter().map(|n| (n.id, n.label.clone())).collect();
+            window_agrees(&got, all, *limit, *offset).or_else(|why| bad(&why))
+        }
+        (QueryResult::Edges(x), Direct::Listing { all, limit, offset }) => {
+            let got: Vec<(u64, String)> = x.iter().map(|e| (e.id, e.label.clone())).collect();
+            window_agrees(&got, all, *limit, *offset).or_else(|why| bad(&why))
+        }
+        (QueryResult::Unified(u), Direct::Find { cands, must, must_not, exact, limit }) => {
+            let mut ids: Vec<u64> = Vec::new();
+            for it in &u.items {
+                match it.id.parse::<u64>() {
+                    Ok(i) => ids.push(i),
+                    Err(_) => return bad("FIND returned an item whose id is not a graph id"),
+                }
+            }
+            let lim = limit.map(|l| l as usize).unwrap_or(usize::MAX);
+            let mut sorted = ids.clone();
+            sorted.sort_unstable();
+            sorted.dedup();
+            if sorted.len() != ids.len() || ids.len() > lim || ids.iter().any(|i| !cands.contains(i)) || ids.iter().any(|i| must_not.contains(i)) {
+                return bad("FIND returned duplicates, more than LIMIT, or an element that does not qualify");
+            }
+            if *exact && ids.len() != must.len().min(lim) {
+                return bad("FIND returned a different number of elements than qualify within LIMIT");
+            }
+            if ids.len() < lim && must.iter().any(|i| !ids.contains(i)) {
+                return bad("FIND omitted a qualifying element although LIMIT was not reached");
+            }
+            Ok(())
+        }
+        (QueryResult::Value(s), Direct::Keys(keys, limit)) => {
+            let lim = limit.map(|l| l as usize).unwrap_or(usize::MAX);
+            if lim == 0 && !s.trim_end().ends_with("[]") {
+                return bad("SHOW EMBEDDINGS LIMIT 0 lists something");
+            }
+            if lim >= keys.len() && keys.iter().any(|k| !s.contains(&format!("{:?}", k))) {
+                return bad("SHOW EMBEDDINGS omits a key although LIMIT covers all keys");
+            }
+            Ok(())
+        }
+        (QueryResult::Value(_), Direct::Done(None)) => Ok(()),
+        (QueryResult::Value(s), Direct::Done(Some(m))) if s.contains(m.as_str()) => Ok(()),
         _ => bad("result kinds differ"),
     }
+}
+
+/// `got` must be a window of `limit` elements after `offset` of the complete listing `all`; the order
+/// of a listing is not specified, so the window is judged by size and membership
+fn window_agrees(got: &[(u64, String)], all: &[(u64, String)], limit: Option<u64>, offset: Option<u64>) -> Result<(), String> {
+    let lim = limit.map(|l| l as usize).unwrap_or(usize::MAX);
+    let off = offset.unwrap_or(0) as usize;
+    let want = all.len().saturating_sub(off).min(lim);
+    if got.len() != want {
+        return Err(format!("listing of {} elements, LIMIT {:?} OFFSET {:?}: expected {} elements, got {}", all.len(), limit, offset, want, got.len()));
+    }
+    let mut ids: Vec<u64> = got.iter().map(|g| g.0).collect();
+    ids.sort_unstable();
+    ids.dedup();
+    if ids.len() != got.len() {
+        return Err("listing contains an element twice".into());
+    }
+    if let Some(g) = got.iter().find(|g| !all.contains(g)) {
+        return Err(format!("listed element {:?} is not in the direct listing", g));
+    }
+    Ok(())
 }
 
 fn cond_columns(c: &Cond, out: &mut Vec<String>) {
@@ -2499,6 +2712,10 @@ fn direct_dbg(d: &Direct) -> String {
         Direct::Path(p) => format!("path {:?}", p),
         Direct::Vector(v) => format!("vector {:?}", v),
         Direct::Similar(t, _) => format!("similar {:?}", t),
+        Direct::Listing { all, limit, offset } => format!("listing {:?} limit {:?} offset {:?}", all, limit, offset),
+        Direct::Find { cands, must, must_not, exact, limit } => format!("find: candidates {:?}, qualifying {:?}, not qualifying {:?}, exact {}, limit {:?}", cands, must, must_not, exact, limit),
+        Direct::Keys(k, l) => format!("keys {:?} limit {:?}", k, l),
+        Direct::Done(x) => format!("done {:?}", x),
     }
 }
 
@@ -2520,6 +2737,7 @@ struct Model {
     keys: Vec<String>,
     dim: usize,
     idx_ctr: usize,
+    ents: Vec<String>,
 }
 
 const TABLE_NAMES: &[&str] = &["users", "orders", "t1", "items", "log_2"];
@@ -2623,8 +2841,25 @@ fn gen_op(r: &mut Rng, m: &mut Model) -> Op {
             *r.pick(ids)
         }
     };
+    // LIMIT / OFFSET values: absent, the boundary 0, small, larger than any result
+    let window = |r: &mut Rng| -> Option<u64> {
+        match r.below(10) {
+            0..=2 => None,
+            3 | 4 => Some(0),
+            5..=7 => Some(1 + r.below(4) as u64),
+            8 => Some(10),
+            _ => Some(*r.pick(&[1000u64, 1_000_000, 4_294_967_296])),
+        }
+    };
+    let ent_key = |r: &mut Rng, m: &Model| -> String {
+        if m.ents.is_empty() || r.chance(1, 4) {
+            format!("ent:{}", r.below(6))
+        } else {
+            r.pick(&m.ents).clone()
+        }
+    };
     loop {
-        match r.below(100) {
+        match r.below(136) {
             0..=5 => {
                 let name = r.pick(TABLE_NAMES).to_string();
                 let n = 1 + r.below(4);
@@ -2690,8 +2925,8 @@ fn gen_op(r: &mut Rng, m: &mut Model) -> Op {
                 };
                 let ordered = r.chance(1, 3);
                 let order = if ordered { Some(("k".to_string(), r.bool())) } else { None };
-                let limit = if ordered && r.bool() { Some(r.below(6) as u64) } else { None };
-                let offset = if ordered && r.chance(1, 3) { Some(r.below(4) as u64) } else { None };
+                let limit = if ordered && r.bool() { Some(if r.chance(1, 6) { 1000 } else { r.below(6) as u64 }) } else { None };
+                let offset = if ordered && r.chance(1, 3) { Some(if r.chance(1, 6) { 1000 } else { r.below(4) as u64 }) } else { None };
                 return Op::Select { table: if r.chance(1, 25) { "nosuch".into() } else { t.name.clone() }, proj, cond, order, limit, offset };
             }
             48..=54 if !live.is_empty() => {
@@ -2731,8 +2966,32 @@ fn gen_op(r: &mut Rng, m: &mut Model) -> Op {
             }
             93 | 94 => return Op::EmbedGet(if m.keys.is_empty() || r.chance(1, 8) { "missing".into() } else { r.pick(&m.keys).clone() }),
             95 => return Op::EmbedDelete(if m.keys.is_empty() || r.chance(1, 8) { "missing".into() } else { r.pick(&m.keys).clone() }),
-            96 | 97 if !m.keys.is_empty() => return Op::SimilarKey { key: r.pick(&m.keys).clone(), k: 1 + r.below(5) as u64, metric: if r.bool() { Some(r.below(3) as u8) } else { None } },
-            98 | 99 => return Op::SimilarVec { vec: gen_vec(r, m.dim), k: 1 + r.below(5) as u64, metric: if r.bool() { Some(r.below(3) as u8) } else { None } },
+            96 | 97 if !m.keys.is_empty() => return Op::SimilarKey { key: r.pick(&m.keys).clone(), k: if r.chance(1, 5) { *r.pick(&[0u64, 50, 1000]) } else { 1 + r.below(5) as u64 }, metric: if r.bool() { Some(r.below(3) as u8) } else { None } },
+            100..=105 => return Op::NodeList { label: if r.bool() { Some(r.pick(LABELS).to_string()) } else { None }, limit: window(r), offset: window(r) },
+            106..=110 => return Op::EdgeList { ty: if r.bool() { Some(r.pick(ETYPES).to_string()) } else { None }, limit: window(r), offset: window(r) },
+            111..=116 => {
+                let cond = if r.bool() { Some((r.pick(&["age", "w", "score", "since"]).to_string(), *r.pick(&[B::Eq, B::Ne, B::Lt, B::Le, B::Gt, B::Ge]), r.range(-3, 30))) } else { None };
+                return Op::FindNode { label: if r.chance(2, 3) { Some(r.pick(LABELS).to_string()) } else { None }, cond, limit: window(r) };
+            }
+            117 | 118 => return Op::FindEdge { ty: if r.bool() { Some(r.pick(ETYPES).to_string()) } else { None }, limit: window(r) },
+            119..=121 => return Op::ShowEmbeddings { limit: window(r) },
+            122 => return Op::CountEmbeddings,
+            123..=127 => {
+                let n = r.below(3);
+                let mut props: Vec<(String, String)> = Vec::new();
+                for _ in 0..n {
+                    let k = r.pick(&["name", "title", "city"]).to_string();
+                    if !props.iter().any(|(x, _)| x == &k) {
+                        props.push((k, r.pick(TEXT_POOL).to_string()));
+                    }
+                }
+                let key = ent_key(r, m);
+                return Op::EntityCreate { key, props, emb: if r.chance(4, 5) { Some(gen_vec(r, m.dim)) } else { None } };
+            }
+            128..=130 => return Op::EntityConnect { from: ent_key(r, m), to: ent_key(r, m), ty: r.pick(ETYPES).to_string() },
+            131..=133 => return Op::NeighborsBySimilar { key: ent_key(r, m), vec: gen_vec(r, m.dim), limit: window(r) },
+            134 | 135 => return Op::SimilarConnected { key: ent_key(r, m), to: ent_key(r, m), limit: window(r) },
+            98 | 99 => return Op::SimilarVec { vec: gen_vec(r, m.dim), k: if r.chance(1, 5) { *r.pick(&[0u64, 50, 1000]) } else { 1 + r.below(5) as u64 }, metric: if r.bool() { Some(r.below(3) as u8) } else { None } },
             _ => continue,
         }
     }
@@ -2762,6 +3021,11 @@ fn model_update(m: &mut Model, op: &Op, d: &Direct) {
             }
         }
         (Op::EmbedDelete(key), _) => m.keys.retain(|k| k != key),
+        (Op::EntityCreate { key, .. }, _) => {
+            if !m.ents.contains(key) {
+                m.ents.push(key.clone());
+            }
+        }
         _ => {}
     }
 }
@@ -2857,7 +3121,7 @@ fn equiv_case(case_seed: u64, rep: &mut Report) {
                 return;
             }
         };
-        let rb = match guard(|| direct(&op, b.relational(), b.graph(), b.vector())) {
+        let rb = match guard(|| direct(&op, &b)) {
             Ok(x) => x,
             Err(p) => {
                 rep.count("direct_call_panics_not_judged", 1);
@@ -2879,7 +3143,7 @@ fn equiv_case(case_seed: u64, rep: &mut Report) {
                         Op::Select { table, proj, cond, order, limit, offset } if limit.is_some() || offset.is_some() => {
                             let op2 = Op::Select { table: table.clone(), proj: proj.clone(), cond: cond.clone(), order: order.clone(), limit: None, offset: None };
                             let qa2 = guard(|| a.execute_parsed(&op2.text(&Style::plain())));
-                            let db2 = guard(|| direct(&op2, b.relational(), b.graph(), b.vector()));
+                            let db2 = guard(|| direct(&op2, &b));
                             match (qa2, db2) {
                                 (Ok(Ok(x)), Ok(Ok(y))) => select_differs_only_on_null_rows(&op2, &x, &y),
                                 _ => false,
@@ -2926,7 +3190,7 @@ fn equiv_case(case_seed: u64, rep: &mut Report) {
                     return;
                 }
                 // re-synchronise the twins: apply the direct call to the text-side engines as well
-                match guard(|| direct(&op, a.relational(), a.graph(), a.vector())) {
+                match guard(|| direct(&op, &a)) {
                     Ok(Ok(_)) => {
                         model_update(&mut m, &op, db);
                         if let Op::CreateTable { name, .. } = &op {
